@@ -327,7 +327,7 @@ theorem rel_core {op : CmpOp} {a b : Expr} (ht : Typed c r (.cmp op a b)) (iha :
   have htb : Typed c r b := fun n hn => ht n (by simp [allNames, hn])
   rw [okV] at hok
   simp only [Bool.and_eq_true, Bool.or_eq_true, decide_eq_true_eq] at hok
-  obtain ⟨⟨⟨hoka, hokb⟩, _⟩, hwide⟩ := hok
+  obtain ⟨⟨hoka, hokb⟩, hwide⟩ := hok
   have hsa := selfW_trE c r a hta
   have hsb := selfW_trE c r b htb
   have hdx := evalD_inDom ρ a x hx
